@@ -402,7 +402,7 @@ class Effects:
         if getattr(self, '_str_methods', None) is None:
             import copy
             out = []
-            for nm in ('value', 'runtime', 'parser', 'model', 'data', 'library', 'options'):
+            for nm in self.repo.all_module_names():
                 try:
                     m = self.repo.module(nm)
                 except Exception:
